@@ -403,6 +403,66 @@ def bounded_dual(seed_base, programs):
     return run
 
 
+def h_mqtt_handler(which):
+    """The MQTT message handler (legacy: the closure made per subscription; new: the decorator's bound method): every message
+    yields its OWN argument set - trigger_type, topic, payload, qos, retain of THAT message, and payload_obj exactly when THAT
+    payload is JSON.  Two messages are handled in a row (JSON or not, by the path) so that nothing can carry over."""
+    def h(eng):
+        it = Interpreter(eng)
+        w = World(eng)
+        U = f"C08/mqtt-message-handler[{which}]"
+        sent = []
+        valid = [bool(eng.choose(2, "first-payload-is-json")), bool(eng.choose(2, "second-payload-is-json"))]
+        parsed = [SV(z3.Const("parsed_payload_1", ObjS)), SV(z3.Const("parsed_payload_2", ObjS))]
+        msgs = [Rec(fields={"topic": SV(z3.Const(f"topic_{k}", ObjS)), "payload": SV(z3.Const(f"payload_{k}", ObjS)), "qos": SV(z3.Const(f"qos_{k}", ObjS)),
+                            "retain": SV(z3.Const(f"retain_{k}", ObjS))}, name=f"mqttmsg{k}") for k in (1, 2)]
+
+        def loads(i, payload):
+            k = 0 if payload is msgs[0]._fields["payload"] else 1
+            if not valid[k]:
+                raise exc("ValueError", "not json")
+            return parsed[k]
+        jsonm = PyModule("json", {"loads": loads})
+        if which == "legacy":
+            tb = ListenTable(eng, it, w, "Mqtt")
+            tb.mod.env.vars["json"] = jsonm
+            cls = tb.cls
+            cls.attrs["update"] = lambda i, topic, fa: Coro(lambda: sent.append((topic, dict(fa), fa)), "Mqtt.update")
+            cls.attrs["update"]._is_method = False
+            handler = it.call(it.getattr_(cls, "mqtt_message_handler_maker"), ["a/b"], {})
+            call = lambda m: it.await_(it.call(handler, [m], {}))
+        else:
+            import ast as _ast
+            from pyvc.loader import parse_file
+            from pyvc.interp import Env
+            tree, _ = parse_file(f"{PKG}/decorators/mqtt.py")
+            c = next(n for n in tree.body if isinstance(n, _ast.ClassDef) and n.name == "MQTTTriggerDecorator")
+            fn = next(n for n in c.body if isinstance(n, _ast.AsyncFunctionDef) and n.name == "_mqtt_message_handler")
+            self_ = Rec(fields={"has_expression": lambda i: False, "dispatch": lambda i, d: Coro(lambda: sent.append(("a/b", dict(d._fields["func_args"]), d._fields["func_args"])), "dispatch")}, name="mqtt_dec")
+            DD = lambda i, fa: Rec(fields={"func_args": fa}, name="DispatchData")
+
+            def call(m):
+                env = Env(vars={"self": self_, "mqttmsg": m, "json": jsonm, "DispatchData": DD})
+                return it.exec_block(fn.body, env)
+        k1, _ = run_catching(it, lambda: call(msgs[0]))
+        k2, _ = run_catching(it, lambda: call(msgs[1]))
+        eng.cover(f"ran:{k1}:{k2}")
+        eng.oblige(f"{U}/post.no-exception", k1 == "ok" and k2 == "ok")
+        eng.oblige(f"{U}/post.one-delivery-per-message", len(sent) == 2)
+        if len(sent) != 2:
+            return
+        for k in (0, 1):
+            want = {"trigger_type": "mqtt", "topic": msgs[k]._fields["topic"], "payload": msgs[k]._fields["payload"], "qos": msgs[k]._fields["qos"], "retain": msgs[k]._fields["retain"]}
+            if valid[k]:
+                want["payload_obj"] = parsed[k]
+            got = sent[k][1]
+            ob = eng.oblige(f"{U}/post.arguments-are-those-of-this-message", set(got) == set(want) and all(got[x] is want[x] or got[x] == want[x] for x in want))
+            if ob.status == "refuted":
+                ob.witness = {"signature": "mqtt-arguments-carried-over", "which": which, "json": valid}
+        eng.oblige(f"{U}/post.each-message-gets-its-own-dictionary", sent[0][2] is not sent[1][2])
+    return h
+
+
 def harnesses():
     hs = []
     for kind, path in (("Event", EV_PY), ("Mqtt", MQ_PY), ("Webhook", WH_PY)):
@@ -416,6 +476,10 @@ def harnesses():
                                  (D_PY, "FunctionDecoratorManager.dispatch"), (D_PY, "FunctionDecoratorManager._call"),
                                  (f"{PKG}/decorators/base.py", "ExpressionDecorator.check_expression_vars")],
                           replay=lambda wj: __import__("replay.native", fromlist=["run_native"]).run_native("c08_event_filter_value", wj)))
+    hs.append(Harness("mqtt-handler[legacy]", h_mqtt_handler("legacy"), units=[(MQ_PY, "Mqtt.mqtt_message_handler_maker")],
+                      replay=lambda wj: __import__("replay.native", fromlist=["run_native"]).run_native("c08_mqtt_stale_payload_obj", wj)))
+    hs.append(Harness("mqtt-handler[new]", h_mqtt_handler("new"), units=[(f"{PKG}/decorators/mqtt.py", "MQTTTriggerDecorator._mqtt_message_handler")],
+                      replay=lambda wj: __import__("replay.native", fromlist=["run_native"]).run_native("c08_mqtt_stale_payload_obj", wj)))
     hs.append(Harness("TrigInfo.call_action", h_call_action, units=[(T_PY, "TrigInfo.call_action")]))
     hs.append(Harness("bounded.dual-subsystems", bounded_dual(500, 100), units=[(T_PY, "TrigInfo.trigger_watch"), (D_PY, "FunctionDecoratorManager.dispatch")], kind="bounded"))
     for k in range(1, 5):
